@@ -300,6 +300,14 @@ impl Driver {
                 }
                 key => {
                     let flags = entry.flags();
+                    #[cfg(compio_verif)]
+                    if let Some(bid) = io_uring::cqueue::buffer_select(flags) {
+                        crate::verif::emit(
+                            crate::verif::POOL_BUF,
+                            bid as u64,
+                            crate::verif::pool::KERNEL_SELECTED,
+                        );
+                    }
                     if more(flags) {
                         #[cfg(compio_verif)]
                         crate::verif::emit(crate::verif::CQE_MORE, key, entry.result() as i64);
